@@ -473,6 +473,29 @@ Definition wrapper (x : pv) : option pv :=
   | _ => None                         (* result.get: a non-dict payload is outside the model *)
   end.
 
+(* what a JSON-persisted delta holds in place of the sets of set_item_added / set_item_removed:
+   JSON_CONVERTOR[set] = list writes the members as an array (in the set's iteration order) and
+   nothing turns them back; Delta applies them with set.union / set.difference, which take any
+   iterable.  [setlist d] is d with exactly those sets replaced by the lists of their members. *)
+Definition set_to_list (v : pv) : pv := match v with PSet xs => PList (map PAtom xs) | _ => v end.
+Definition sets_to_lists (v : pv) : pv :=
+  match v with
+  | PDict paths => PDict (map (fun kv => (fst kv, set_to_list (snd kv))) paths)
+  | _ => v
+  end.
+Local Open Scope string_scope.
+Definition is_set_key (a : atom) : bool :=
+  match a with
+  | AStr k => pystr_eqb k (s2p "set_item_added") || pystr_eqb k (s2p "set_item_removed")
+  | _ => false
+  end.
+Local Close Scope string_scope.
+Definition setlist (d : pv) : pv :=
+  match d with
+  | PDict kvs => PDict (map (fun kv => (fst kv, if is_set_key (fst kv) then sets_to_lists (snd kv) else snd kv)) kvs)
+  | _ => d
+  end.
+
 (* Delta(json text, deserializer=json_loads).diff *)
 Definition json_load (j : jv) : option pv :=
   match of_json j with Some x => wrapper x | None => None end.
